@@ -15,9 +15,9 @@ META = {
             'order, the delivered list is always a prefix of the accepted one (never twice / reordered / skipped, across '
             'move/reset cycles, synchronous fall-back when no worker exists), the stop terminates within measure+2 '
             'enabled steps while the application object lives, and the full-strength "returns with or without a live '
-            'QCoreApplication" is REFUTED by a witness (finding F5); for any number of concurrent stopper threads no stop ever acts on a cleared thread (C04_concurrent_stops_safe), which is refuted for the pre-repair skeleton by a two-stopper witness.  The skeleton of resetOwnThread / moveToOwnThread / '
+            'QCoreApplication" is REFUTED by a witness (finding F5); for any number of concurrent stopper threads no stop ever acts on a cleared thread (C04_concurrent_stops_safe), which is refuted for the pre-repair skeleton by a two-stopper witness; the verdict of the wrapped handler (a bare OwnThreadHandler<> may wrap a handler whose process() returns false) is an input of the model: a rejected message is counted down like any other, no reachable state has a leaked pending count (C04_pending_count_never_leaks), and for a customEvent that returns early on rejection a stop after accept/reject/accept never returns (C04_stop_after_rejection_refuted_if_decrement_conditional; both model switches are computed from the translated source).  The skeleton of resetOwnThread / moveToOwnThread / '
             'destructor / process / customEvent is re-read from the source on every run and must equal the modelled '
-            'one; recordings of the real library on every shutdown path are fed to the extracted acceptor (proved: '
+            'one; recordings of the real library on every shutdown path - a Logger, and a bare OwnThreadHandler<FunctionHandler> whose function rejects messages; backlogs up to 8 s of sink work at the stop - are fed to the extracted acceptor (proved: '
             'accepted => a run of the model) and to direct oracles in the property\'s own terms.',
     'note': 'Level is partial for the tie: the model is hand-written; what connects it to the code is (a) the translated '
             'skeleton equality, (b) differential acceptance of recorded schedules, which is testing, not proof. '
@@ -56,6 +56,8 @@ def total_msgs(s):
         n = (s['backlog'] + 1) * s.get('cycles', 3)
     if p == 'race':
         n = s.get('producers', 3) * s.get('per', 20) + s.get('after', 2)
+    if p == 'rejecting':
+        n = (s['backlog'] + 1) * s.get('cycles', 1)
     return n + s.get('after', 2)
 
 
@@ -92,6 +94,45 @@ def race_scenarios(rng, n_fast, n_paced):
             if i % 4 == 1:
                 s['yield'] = YIELDS[1 + (i // 4) % (len(YIELDS) - 1)]
         out.append(s)
+    return out
+
+
+LONG_BACKLOG_S = 8.0      # seconds of sink work queued when the stop begins: more than any grace period
+                          # (3 s drain + wait(3000)) a stop could apply before giving up on the backlog
+
+
+def long_backlog_scenarios(rng, thorough):
+    """a slow sink and a burst worth LONG_BACKLOG_S of work, then the stop: it returns only after all of it has
+    been delivered, however long that takes (no message accepted before the stop is dropped).  The children sit
+    in usleep; they cost wall time only where nothing else runs that long (the F5 children sit out 10 s anyway)"""
+    def sized(path, delay, **kw):
+        return scn(path, int(round(LONG_BACKLOG_S * 1000 / delay)), delay, **kw)
+    out = [sized('reset', 500, loop=0, after=1, stagger=1)]
+    if thorough:
+        out += [sized('reset', 100, loop=1, after=1, stagger=rng.randint(0, 1)),
+                sized('quit', rng.choice([200, 250]), after=1, stagger=rng.randint(0, 1)),
+                sized('scoped', rng.choice([100, 400]), loop=rng.randint(0, 1), stagger=1),
+                sized('leakapp', 250, loop=0, stagger=1),
+                scn('cycles', 10, 700, cycles=2, loop=0, stagger=1),
+                sized('rejecting', 500, stop='reset', loop=0, reject='ar', after=1, stagger=1)]
+    return out
+
+
+REJECT_PATTERNS = ['ara', 'r', 'ar', 'aar', 'raa', 'aaaara', 'rra', 'a']
+
+
+def rejecting_scenarios(rng, n):
+    """a bare OwnThreadHandler<FunctionHandler> (not a Logger) whose wrapped handler rejects some messages -
+    process() returns false -: accept, reject, accept, then each way of stopping"""
+    out = [scn('rejecting', 3, 0, reject='ara', stop='reset', loop=0, after=2, stagger=0),
+           scn('rejecting', 3, 1, reject='ara', stop='quit', after=2, stagger=1),
+           scn('rejecting', 3, 1, reject='ara', stop='delete', loop=rng.randint(0, 1), after=0, stagger=rng.randint(0, 1)),
+           scn('rejecting', 3, 1, reject='aaaara', stop='reset', cycles=2, loop=1, after=1, stagger=0)]
+    for i in range(n):
+        out.append(scn('rejecting', rng.choice([1, 2, 5, 30]), rng.choice([0, 1, 5]), reject=REJECT_PATTERNS[i % len(REJECT_PATTERNS)],
+                       stop=rng.choice(['reset', 'quit', 'delete']), cycles=rng.choice([1, 1, 2, 3]), loop=rng.randint(0, 1),
+                       after=rng.randint(0, 2), stagger=rng.randint(0, 1)))
+    out.append(scn('rejecting', 2, 1, reject='ra', stop='reset', loop=0, **{'async': 0}))      # control: never asynchronous
     return out
 
 
@@ -181,6 +222,8 @@ def scenarios(chk):
     if thorough:
         out.append(scn('quit', 2, 1700, loop=1, after=0))
         out.append(scn('cycles', 1, 3200, cycles=2, loop=0))
+    out += long_backlog_scenarios(rng, thorough)
+    out += rejecting_scenarios(rng, 12 if thorough else 4)
     if thorough:
         out += widened_scenarios(rng)
     # an own Logger deleted inside the running event loop, then quit: run under the sanitizers
@@ -236,7 +279,9 @@ def analyze(s, r):
     stops = []          # (begin index, end index)
     cur_begin = None
     facts = {'wait_iterations': 0, 'posts_during_wait_loop': 0, 'sync_deliveries': 0, 'moves': 0, 'stops_without_thread': 0,
-             'first_check_empty': 0, 'check_with_message_in_hand': 0, 'foreign': 0}
+             'first_check_empty': 0, 'check_with_message_in_hand': 0, 'foreign': 0, 'rejected_by_handler': 0,
+             'rejected_on_worker': 0}
+    hand_rejected = False    # the wrapped handler returned false for the message the worker has in hand
     in_sleep = False
     in_hand = False
     rlocked_since_begin = False
@@ -258,12 +303,16 @@ def analyze(s, r):
             m = int(f[1]); delivered.append(m); del_at.setdefault(m, i); sync[m] = f[2] == 's'
             toks.append('D%d%s' % (m, f[2]))
             facts['sync_deliveries'] += f[2] == 's'
+            rej = len(f) > 3 and f[3] == 'r'
+            facts['rejected_by_handler'] += rej
+            if f[2] == 'a':
+                hand_rejected = rej; facts['rejected_on_worker'] += rej
         elif k in TOK:
-            toks.append(TOK[k] + (f[1] if k in INDEXED and len(f) > 1 else ''))
+            toks.append(TOK[k] + (f[1] if k in INDEXED and len(f) > 1 else '') + ('0' if k == 'DONE' and hand_rejected else ''))
             if k == 'TAKE':
                 in_hand = True
             elif k == 'DONE':
-                in_hand = False
+                in_hand = False; hand_rejected = False
             elif k == 'RLOCKED':
                 rlocked_since_begin = True
             elif k == 'RWAIT':
@@ -357,6 +406,9 @@ def parse_model(line):
         if '=' in kv:
             k, v = kv.split('=', 1)
             d[k] = v
+    # the two ways a stop can hang in the model: the backlog can never be handed over (C04_stuck_forever), or a
+    # pending count has leaked while a stop is in its wait loop (C04_leak_forever; unreachable with du = 1)
+    d['predicts_hang'] = d.get('stuck') == '1' or (d.get('leak') == '1' and any(c in d.get('stops', '') for c in 'CS'))
     return d
 
 
@@ -396,7 +448,7 @@ def replay_obj(s, r, problems, mv, kind):
          'problems': ['%s: %s' % p for p in problems][:6],
          'accepted': r['facts']['posted'], 'delivered': r['facts']['delivered'],
          'model': mv.get('raw') if mv else None,
-         'model_predicts_hang': (mv.get('stuck') == '1') if mv else None,
+         'model_predicts_hang': bool(mv.get('predicts_hang')) if mv else None,
          'trace_head': collapse(r['lines'])[:25], 'trace_tail': collapse(r['lines'])[-25:], 'stacks': r.get('stacks')}
     if s['path'] in F5_PATHS or s['path'] == 'leakapp':
         o['exit_path'] = s['path']
@@ -405,6 +457,10 @@ def replay_obj(s, r, problems, mv, kind):
     o['after_main_return'] = 'MAIN_RETURN' in r['lines']
     o['concurrent'] = bool(s.get('concurrent'))
     o['loop'] = s.get('loop')
+    o['handler'] = 'bare OwnThreadHandler<FunctionHandler>' if s['path'] == 'rejecting' else 'Logger'
+    if s['path'] == 'rejecting':
+        o['reject_pattern'] = s.get('reject', 'ara'); o['stop'] = s.get('stop', 'reset')
+    o['backlog_work_s'] = round(s['backlog'] * s['delay'] / 1000.0, 2)
     o['sanitizer'] = bool(s.get('_san'))
     if s.get('_san') and r['rc'] != 0:
         o['asan_head'] = r.get('stderr_head', '').splitlines()[:14]
@@ -428,7 +484,8 @@ def run():
     chk.assumptions = ['any number of threads may be inside resetOwnThread at once in the model (one entry of `stops` each); the recordings use at most two stopper threads',
                        'moveToOwnThread is not called concurrently with logging calls in the recordings (the harness holds the logger lock around it)',
                        'real time is outside the model: "bounded time" is checked on the implementation only, as exit within %.0f s + 1.5 x expected drain time' % BOUND_S,
-                       'Qt emits aboutToQuit when exec() returns after quit() (Qt behaviour, not modelled)']
+                       'Qt emits aboutToQuit when exec() returns after quit() (Qt behaviour, not modelled)',
+                       'the longest backlog a stop is made to wait for is %.0f s of sink work (a stop that gives up later than that is not exposed by the recordings)' % LONG_BACKLOG_S]
     # the proof leg (Coq, shared build lock) runs while the children of the standard scenario set run
     pex = ThreadPoolExecutor(max_workers=1)
     proof_future = pex.submit(vlib.proof_leg, 'Properties_C04', ['shutdown'])
@@ -479,7 +536,7 @@ def run():
     extended = not proof_ok and not thorough
     if extended:
         # the skeleton (or a proof) no longer checks: search schedules harder before giving a verdict
-        more = race_scenarios(chk.rng, 12, 24) + widened_scenarios(chk.rng)
+        more = race_scenarios(chk.rng, 12, 24) + widened_scenarios(chk.rng) + long_backlog_scenarios(chk.rng, True)[1:] + rejecting_scenarios(chk.rng, 12)[4:]
         for i, s in enumerate(more):
             s['_n'] = len(scs) + i
         with ThreadPoolExecutor(max_workers=16) as ex:
@@ -514,9 +571,9 @@ def run():
             k = mv.get('rejected_at')
             return 'acceptor rejects the recording at event %s (%s) in model state [%s]' % (
                 k, r['toks'][k] if k is not None and k < len(r['toks']) else '?', mv.get('raw'))
-        if (mv.get('stuck') == '1') != r['hung']:
+        if bool(mv.get('predicts_hang')) != r['hung']:
             return 'model %s a hang (state [%s]) but the child %s' % (
-                'predicts' if mv.get('stuck') == '1' else 'does not predict', mv.get('raw'), 'timed out' if r['hung'] else 'exited')
+                'predicts' if mv.get('predicts_hang') else 'does not predict', mv.get('raw'), 'timed out' if r['hung'] else 'exited')
         return None
 
     # flake guard: a recording the model rejects while the property's own oracles are satisfied is re-run once
@@ -578,12 +635,16 @@ def run():
         'oracle_points_evaluated': n_oracle, 'oracle_points_false': sum(len(r['oracle_bad']) for _, r in pairs),
         'recordings_accepted_by_model': sum(1 for _, r in pairs if r['model'].get('ok')),
         'recordings_rejected_by_model': sum(1 for _, r in pairs if not r['model'].get('ok')),
-        'hang_prediction_agrees': sum(1 for _, r in pairs if (r['model'].get('stuck') == '1') == r['hung']),
+        'hang_prediction_agrees': sum(1 for _, r in pairs if bool(r['model'].get('predicts_hang')) == r['hung']),
         'unreproduced_disagreements': unreproduced,
         'unreproduced_examples': [' '.join(argv_of(s)) + ' :: ' + r['unreproduced_disagreement'][:300] for s, r in pairs if r.get('unreproduced_disagreement')][:3],
         'messages_accepted_total': tot('posted'), 'messages_delivered_total': tot('delivered'),
         'boundary_hits': {k: tot(k) for k in ('wait_iterations', 'posts_during_wait_loop', 'sync_deliveries', 'moves',
-                                             'stops_without_thread', 'first_check_empty', 'check_with_message_in_hand', 'foreign')},
+                                             'stops_without_thread', 'first_check_empty', 'check_with_message_in_hand', 'foreign',
+                                             'rejected_by_handler', 'rejected_on_worker')},
+        'by_handler': hist(lambda s, r: 'bare OwnThreadHandler<FunctionHandler>' if s['path'] == 'rejecting' else 'Logger'),
+        'long_backlog_children': sum(1 for s, r in pairs if s['backlog'] * s['delay'] >= 1000 * LONG_BACKLOG_S * 0.85),
+        'longest_backlog_drained_s': max([0] + [round(s['backlog'] * s['delay'] / 1000.0, 1) for s, r in pairs if not r['problems'] and int(s.get('async', 1)) and s['path'] not in F5_PATHS]),
         'corpus_scenarios_replayed_first': sum(1 for s in scs if s.get('_corpus')),
         'extended_schedule_search': extended, 'sanitizer_children': sum(1 for s in scs if s.get('_san')),
         'max_child_wall_s': max(r['wall'] for _, r in pairs), 'skeleton_translator': pr.get('translator', {}),
